@@ -85,6 +85,11 @@ def _gen(seed: int, i: int, tier: str) -> dict:
     ops = []
     for ln in lines:
         ops.append(["line", ln])
+    if proto in G.PROTOS_2X and rng.random() < 0.5:
+        # the application sends commands meanwhile; what a wake releases must not leak into what listen yields
+        for _ in range(rng.randint(1, 5)):
+            ops.insert(rng.randint(0, len(ops)), ["send", [rng.choice(ids), rng.choice(children), 1, 0,
+                                                            rng.choice(types), G.payload(rng)], rng.random() < 0.9])
     # consumption style: a new listen() now and then even without an error
     if rng.random() < 0.5:
         for _ in range(rng.randint(1, 3)):
